@@ -321,11 +321,16 @@ func (r *resolver) Resolve(ctx context.Context, vk resolve.VersionKey) (*resolve
 			latest := r.concreteForLatest(ctx, wouldPick)
 			for i := len(dvers) - 1; i >= 0; i-- {
 				v := dvers[i]
-				if v.Equal(latest) {
+				if !v.HasAttr(version.Blocked) {
 					wouldPick = v
 					break
 				}
-				if !v.HasAttr(version.Blocked) {
+			}
+			// The version tagged latest is preferred whenever it matches;
+			// it is not necessarily the last of the matching versions (a
+			// prerelease tagged latest sorts among the releases).
+			for _, v := range dvers {
+				if v.VersionKey == latest.VersionKey {
 					wouldPick = v
 					break
 				}
